@@ -610,7 +610,15 @@ def method(ex, state, obj, name, args, kw, line, node):
             r.ubound = o.shape[0]          # a permutation of range(n): every value is < n
             return r
         if name == 'astype':
-            return npmodel.new_arr(state, obj.shape, z3.BoolVal(args[0] == 'complex') if isinstance(args[0], str) else obj.cplx)
+            tgt = args[0] if args else kw.get('dtype')
+            if is_tag(tgt, 'dtype') and isinstance(tgt[1], SArr):
+                # x.astype(y.dtype): converting complex data to a real dtype silently drops the imaginary part
+                ctx.oblige(state, 'no-complex-into-real', line, z3.Or(z3.Not(obj.cplx), tgt[1].cplx), 'astype to the dtype of a real array discards the imaginary part')
+                r = npmodel.new_arr(state, obj.shape, tgt[1].cplx)
+                npmodel.set_roles(r, npmodel.roles_of(obj))
+                return r
+            cx = dtype_cplx(tgt)
+            return npmodel.new_arr(state, obj.shape, cx if cx is not None else obj.cplx)
         raise Unsupported('ndarray.%s at line %d' % (name, line))
     if isinstance(obj, SArrN):
         if name == 'copy':
